@@ -531,6 +531,14 @@ def rule_flag_table(res, rid, m):
                               "the per-packet segment index `%s` has only %d bits: it wraps to 0 within a packet of more than %d segments and that "
                               "segment is flagged 'first' again" % (v.get("name"), bits, 1 << bits))
 
+    # ... also on its way into the flag builder: the parameter the index is bound to
+    for i9, prm in enumerate(f.params):
+        a9 = strip_all_casts(call["args"][i9]) if i9 < len(call.get("args", [])) else {}
+        if a9.get("k") == "ref" and a9.get("decl") in idxv and prm["t"].get("k") == "int":
+            bits9 = (prm["t"].get("bits") or 0) - (1 if prm["t"].get("sg") else 0)
+            res.check(bits9 >= 16, rid, "flag:index-width:parameter", f.loc, "the flag builder takes the segment index in %d value bits" % bits9,
+                      "the flag builder takes the segment index as `%s` (%d value bits): the index of a packet's segment %d arrives as 0 and that segment is "
+                      "flagged 'first' again — the decoder restarts the reassembly and delivers the tail only" % (prm["t"].get("s"), bits9, 1 << bits9))
     # a bool that is true exactly in the first iteration: initialised true before the loop, set to false unconditionally in the loop body
     # after the flag builder was called (`bool isFirst = true; while (..) { flag(.., isFirst, ..); ...; isFirst = false; }`)
     firstflags = set()
@@ -1183,6 +1191,28 @@ def rule_limits_taken_unchanged(res, rid, m):
             strip_all_casts(r.get("base", {})).get("dk") == "param"
         if from_ctx:
             res.ok(rid, "max:%s:from-context" % f.name.split("::")[-1], node.get("loc"), "max := this call's DataContext::maxBytesPerMessage, unchanged")
+            # ... and the DataContext it reads is the one the public entry point was given: every call site hands its own DataContext parameter
+            # on as it is (a local copy with an adjusted maximum is a replacement value by another route)
+            pd9 = [q["decl"] for q in f.params]
+            pdecl9 = strip_all_casts(r.get("base", {})).get("decl")
+            if pdecl9 in pd9:
+                i9 = pd9.index(pdecl9)
+                for h in m.methods:
+                    if h.body is None:
+                        continue
+                    for c9 in h.calls():
+                        if m.fb.resolve_call(c9) is not f:
+                            continue
+                        a9 = facts.effective_call(c9).get("args", [])
+                        x9 = strip_all_casts(a9[i9]) if len(a9) > i9 else {}
+                        own9 = x9.get("k") == "ref" and x9.get("dk") == "param" and \
+                            not any(lvalue_root(w9["l"]) == x9.get("decl") for w9 in h.nodes() if w9.get("k") in ("assign", "cassign"))
+                        n += 1
+                        res.check(own9, rid, "max:%s:context-handed-on@%s" % (h.name.split("::")[-1], (c9.get("loc") or "").split(":", 1)[-1]), c9.get("loc"),
+                                  "%s hands its own DataContext parameter on unchanged" % h.name.split("::")[-1],
+                                  "%s hands %s a DataContext other than the one it was given (`%s`): the maximum (or minimum) frame size the call works with is "
+                                  "not the caller's — frames can exceed the configured maximum, and this entry point disagrees with its siblings" %
+                                  (h.name, f.name.split("::")[-1], canon(x9)[:40]))
             continue
         # a replacement: only for values outside the domain
         fs = MustFacts(f).at(node)
